@@ -23,7 +23,7 @@ pub fn ym_of_g(g: usize) -> (i64, usize, usize) {
   }
 }
 
-fn check_day(ctx: &Ctx, civ: &Civil, tm: &Terms, ord: usize, routes: bool, loc: &mut Local) {
+fn check_day(ctx: &Ctx, civ: &Civil, tm: &Terms, ord: usize, routes: bool, steps: bool, loc: &mut Local) {
   let d = civ.date(ord);
   let g = match tm.g_of_day(ord) {
     Some(g) => g,
@@ -118,12 +118,38 @@ fn check_day(ctx: &Ctx, civ: &Civil, tm: &Terms, ord: usize, routes: bool, loc: 
       Err(m) => ctx.violation("month_object", fmt_ymd(d), format!("panics: {}", m), rp.clone()),
     }
   }
+  // stepping the month object by n: (year, index) moves like 12 * year + index, pillar and first day follow
+  if steps && jie_day && y >= 2 && y < 9998 {
+    let base = 12 * y + k as i64;
+    for n in [2i64, -2, 11, -11, 12, -12, 13, -13, 24, -24, 25, -(k as i64) - 12, -(k as i64) - 24, -(k as i64) - 36, 12 - k as i64, 60, -60, 1237, -1237] {
+      let t = base + n;
+      let (ny, nk) = (t.div_euclid(12), t.rem_euclid(12) as usize);
+      if ny < 2 || ny > 9997 {
+        continue;
+      }
+      loc.transitions += 1;
+      let r = guard(|| {
+        let m = mk(d).get_sixty_cycle_day().get_sixty_cycle_month().next(n as isize);
+        (m.get_sixty_cycle().get_name(), m.get_sixty_cycle_year().get_year(), m.get_index_in_year(), ymd_of(&m.get_first_day().get_solar_day()))
+      });
+      let key = format!("{} n={:+}", fmt_ymd(d), n);
+      let wf = civ.date(tm.t[(24 * ny + 3 + 2 * nk as i64) as usize].day as usize);
+      match r {
+        Ok((name, yy, idx, f)) => {
+          if name != month_pillar(ny, nk) || yy as i64 != ny || idx != nk || f != wf {
+            ctx.violation("month_next", key, format!("month {} of year {} stepped by {}: {} (index {}) of year {} first day {}; model {} (index {}) of year {} first day {}", k, y, n, name, idx, yy, fmt_ymd(f), month_pillar(ny, nk), nk, ny, fmt_ymd(wf)), rp.clone());
+          }
+        }
+        Err(m) => ctx.violation("month_next", key, format!("panics: {}", m), rp.clone()),
+      }
+    }
+  }
   if d.1 == 1 && d.2 == 1 {
     loc.traces += 1;
   }
 }
 
-fn check_inst(ctx: &Ctx, civ: &Civil, tm: &Terms, inst: i64, loc: &mut Local) {
+fn check_inst(ctx: &Ctx, civ: &Civil, tm: &Terms, inst: i64, routes: bool, loc: &mut Local) {
   let o = inst.div_euclid(86400);
   if o < 0 || o as usize >= civ.len() {
     return;
@@ -149,12 +175,12 @@ fn check_inst(ctx: &Ctx, civ: &Civil, tm: &Terms, inst: i64, loc: &mut Local) {
   let rp = vec!["inst".to_string(), inst.to_string()];
   // the lunar-hour routes (incl. the deprecated getters) must agree
   #[allow(deprecated)]
-  let r2 = guard(|| {
+  let r2 = if !routes { Err(String::new()) } else { guard(|| {
     let lh = SolarTime::from_ymd_hms(d.0 as isize, d.1 as usize, d.2 as usize, (s / 3600) as usize, (s / 60 % 60) as usize, (s % 60) as usize).get_lunar_hour();
     let h = lh.get_sixty_cycle_hour();
     (h.get_year().get_name(), h.get_month().get_name(), lh.get_year_sixty_cycle().get_name(), lh.get_month_sixty_cycle().get_name())
-  });
-  match r2 {
+  }) };
+  match if routes { r2 } else { Ok((want_y.clone(), want_m.clone(), want_y.clone(), want_m.clone())) } {
     Ok((py, pm, py2, pm2)) => {
       if py != want_y || pm != want_m || py2 != want_y || pm2 != want_m {
         ctx.violation("route", format!("{} LunarHour", key), format!("LunarHour::get_sixty_cycle_hour year {} month {}; LunarHour::get_year_sixty_cycle {} get_month_sixty_cycle {}; model {} {}", py, pm, py2, pm2, want_y, want_m), rp.clone());
@@ -224,11 +250,11 @@ pub fn run(ctx: &Ctx) {
   for (a, b) in runs {
     done &= par_chunks(ctx, a, b, 1024, |x, y, l| {
       for o in x..y {
-        check_day(ctx, &civ, &tm, o, !ctx.quick() || o % 3 == 0, l);
+        check_day(ctx, &civ, &tm, o, !ctx.quick() || o % 3 == 0, !ctx.quick(), l);
       }
     });
   }
-  ctx.subspace(&format!("day view: civil dates of {} years ({} dates): year pillar, month pillar, index in year (+ three other public routes{}); month objects on every Jie day", years.len(), n, if ctx.quick() { " on every third date" } else { "" }), done, n);
+  ctx.subspace(&format!("day view: civil dates of {} years ({} dates): year pillar, month pillar, index in year (+ three other public routes{}); month objects on every Jie day{}", years.len(), n, if ctx.quick() { " on every third date" } else { "" }, if ctx.quick() { "" } else { ", each stepped by 19 step counts incl. negative multiples of 12" }), done, n);
   if ctx.quick() {
     // every Jie day of years 1..9998 and the day before it (where both pillars turn), all routes
     let done = par_chunks(ctx, 25, 24 * 9999, 500, |a, b, l| {
@@ -238,12 +264,12 @@ pub fn run(ctx: &Ctx) {
         }
         let o = tm.t[g].day as usize;
         if o >= 1 && o < civ.len() && civ.date(o).0 <= 9998 {
-          check_day(ctx, &civ, &tm, o - 1, true, l);
-          check_day(ctx, &civ, &tm, o, true, l);
+          check_day(ctx, &civ, &tm, o - 1, true, false, l);
+          check_day(ctx, &civ, &tm, o, true, g % 16 == 3, l);
         }
       }
     });
-    ctx.subspace("day view: every Jie day of years 1..9998 and the day before it (all routes)", done, 12 * 9998 * 2);
+    ctx.subspace("day view: every Jie day of years 1..9998 and the day before it (all routes; the month object of every 8th Jie stepped by 19 step counts incl. negative multiples of 12)", done, 12 * 9998 * 2);
   }
   // time view: every Jie of years 1..9998 at -1 s, +0, +1 s
   let done = par_chunks(ctx, 25, 24 * 9999, 500, |a, b, l| {
@@ -258,11 +284,11 @@ pub fn run(ctx: &Ctx) {
       l.states += 1;
       l.nontrivial += 1;
       for dt in [-1i64, 0, 1] {
-        check_inst(ctx, &civ, &tm, t.inst + dt, l);
+        check_inst(ctx, &civ, &tm, t.inst + dt, true, l);
       }
     }
   });
-  ctx.subspace("time view: every Jie instant of years 1..9998 at -1 s, +0, +1 s", done, 12 * 9998 * 3);
+  ctx.subspace("time view: every Jie instant of years 1..9998 at -1 s, +0, +1 s (direct and LunarHour routes)", done, 12 * 9998 * 3);
   let w = quick_windows(ctx.seed);
   let mut done = true;
   let mut ni = 0u64;
@@ -272,12 +298,12 @@ pub fn run(ctx: &Ctx) {
     done &= par_chunks(ctx, a, b, 512, |x, y, l| {
       for o in x..y {
         for h in [0i64, 12, 22, 23] {
-          check_inst(ctx, &civ, &tm, o as i64 * 86400 + h * 3600 + 1799, l);
+          check_inst(ctx, &civ, &tm, o as i64 * 86400 + h * 3600 + 1799, !ctx.quick() || o % 7 == 0, l);
         }
       }
     });
   }
-  ctx.subspace("time view: hours 0, 12, 22, 23 (at hh:29:59) of every date of the windows W", done, ni);
+  ctx.subspace(&format!("time view: hours 0, 12, 22, 23 (at hh:29:59) of every date of the windows W (LunarHour routes{})", if ctx.quick() { " on every 7th date" } else { "" }), done, ni);
   for d in [(2024, 2, 3), (2024, 2, 4), (1500, 1, 31), (9998, 12, 31)] {
     let o = civ.ord(d.0, d.1, d.2).unwrap();
     if let Some(g) = tm.g_of_day(o) {
@@ -301,13 +327,13 @@ pub fn replay(ctx: &Ctx, args: &[String]) {
       let tm = Terms::build_range(ctx, &civ, y.saturating_sub(1), (y + 1).min(10000));
       let o = civ.ord(n[0] as i32, n[1] as u8, n[2] as u8).unwrap();
       println!("replay C08 day {}: model {:?}", fmt_ymd(civ.date(o)), tm.g_of_day(o).map(|g| ym_of_g(g)));
-      check_day(ctx, &civ, &tm, o, true, &mut l);
+      check_day(ctx, &civ, &tm, o, true, true, &mut l);
     }
     "inst" => {
       let y = civ.date((n[0] / 86400) as usize).0 as usize;
       let tm = Terms::build_range(ctx, &civ, y.saturating_sub(1), (y + 1).min(10000));
       println!("replay C08 instant {}: model {:?}", n[0], tm.g_of_inst(n[0]).map(|g| ym_of_g(g)));
-      check_inst(ctx, &civ, &tm, n[0], &mut l);
+      check_inst(ctx, &civ, &tm, n[0], true, &mut l);
     }
     _ => check_year_obj(ctx, n[0] as isize, &mut l),
   }
